@@ -257,13 +257,14 @@ pub fn is_valid_identifier(name: &str) -> bool {
 
 fn name_needs_quoting(name: &str) -> bool {
     let chars = name.chars();
-    // it contains any of these characters: ()'$,;-+{} or space
     for (i, char) in chars.enumerate() {
-        if [' ', '(', ')', '\'', '$', ',', ';', '-', '+', '{', '}'].contains(&char) {
+        // it contains a character the lexer does not read as part of an unquoted
+        // sheet name, like ()'$,;-+{}!#%&<=>@^"~ or space
+        if !(char.is_alphanumeric() || char == '_' || char == '.') {
             return true;
         }
-        // if it starts with a number
-        if i == 0 && char.is_ascii_digit() {
+        // an unquoted name starts with a letter or an underscore (not a digit or a dot)
+        if i == 0 && !(char.is_alphabetic() || char == '_') {
             return true;
         }
     }
